@@ -760,7 +760,10 @@ pub fn run_case(case: Arc<Case>, root: PathBuf) {
         harness_error: None,
         track_blocks: crate::c19::blocks_armed(),
     });
-    sim::with_rt(|rt| rt.mono = case.mono);
+    sim::with_rt(|rt| {
+        rt.mono = case.mono;
+        rt.writer_pref = case.writer_pref;
+    });
     if case.io.rate > 0 {
         sim::arm_io_faults(case.io.seed, case.io.rate, &case.io.sites);
     }
